@@ -72,7 +72,7 @@ Definition is_dir (s : fstat) : bool := match f_type s with TDir => true | _ => 
 
 Inductive why :=
 | WMissing | WType | WSymlink | WOwner | WGroup | WOther
-| WDir (i : nat) (r : reason) | WAccess (i : nat) | WLock.
+| WDir (i : nat) (r : reason) | WAccess (i : nat) | WLock | WHang.
 
 Definition dir_why (v : verdict) : option why :=
   match v with Secure => None | Insecure i r => Some (WDir i r) end.
@@ -106,7 +106,16 @@ Definition seed_read (euid : N) (o : fobs) : bool * bool :=
        | Some s => if seed_valid euid s then (false, true) else (true, false)
        end.
 
+Definition is_fifo (s : fstat) : bool := match f_type s with TFifo => true | _ => false end.
+
+(* open(path, O_RDONLY) on a FIFO without a writer blocks (and is retried on EINTR, so SIGTERM does not
+   help) unless the source opens with O_NONBLOCK; seed_open_nonblock is observed by the facts probe *)
+Definition seed_blocks (o : fobs) : bool :=
+  negb (o_symlink o) &&
+  match o_stat o with Some s => is_fifo s && negb seed_open_nonblock | None => false end.
+
 Record seedres := mks { sr_refuse : option why;   (* start refused (seed directory insecure, no --force) *)
+                        sr_hang : bool;           (* start-up blocks for ever in open() *)
                         sr_used : bool;           (* file contents added to the entropy pool *)
                         sr_removed : bool;        (* unlink(path) succeeded *)
                         sr_keep : bool }.         (* seed name kept: a new seed is written at exit *)
@@ -115,11 +124,12 @@ Record seedres := mks { sr_refuse : option why;   (* start refused (seed directo
 Definition seed_step (force : bool) (euid tg : N) (o : fobs) (chain : list dstat) : seedres :=
   let v := path_is_secure euid tg seed_flags chain in
   match v, force with
-  | Insecure i r, false => mks (Some (WDir i r)) false false false
+  | Insecure i r, false => mks (Some (WDir i r)) false false false false
   | _, _ =>
+    if seed_blocks o then mks None true false false false else
     let '(bad, used) := seed_read euid o in
     let removed := bad && (o_symlink o || match o_stat o with Some s => negb (is_dir s) | None => false end) in
-    mks None used removed (match v with Secure => true | _ => false end)
+    mks None false used removed (match v with Secure => true | _ => false end)
   end.
 
 (* munged.c open_logfile (daemon mode only) *)
@@ -208,6 +218,7 @@ Definition startup (c : config) : option (site * why) :=
     [ if c_fg c then None
       else tag SLog (logfile_check (c_force c) (c_euid c) (c_tg c) (c_log c) (c_logdir c));
       tag SSeed (sr_refuse (seed_of c));
+      tag SSeed (if sr_hang (seed_of c) then Some WHang else None);
       tag SKey (keyfile_check (c_force c) (c_euid c) (c_tg c) (c_key c) (c_keydir c));
       tag SSock (sock_check (c_force c) (c_euid c) (c_tg c) (c_sockdir c));
       tag SLock (lock_check (c_fg c) (c_force c) (c_euid c) (c_umask c) (c_lock c));
